@@ -78,7 +78,9 @@ func (r *Run) add(verdict, rule, fn, construct, detail, pos string, path []strin
 	return o
 }
 
-func (r *Run) OK(rule, fn, construct, detail string) { r.add("ok", rule, fn, construct, detail, "", nil) }
+func (r *Run) OK(rule, fn, construct, detail string) {
+	r.add("ok", rule, fn, construct, detail, "", nil)
+}
 func (r *Run) Info(rule, fn, construct, detail string) {
 	r.add("info", rule, fn, construct, detail, "", nil)
 }
